@@ -2,6 +2,7 @@ package props
 
 import (
 	"math"
+	"strings"
 
 	"verif/mc/explore"
 	"verif/mc/ref"
@@ -29,7 +30,7 @@ var c03Operands = []operand{
 	// arrays
 	lit("[]", []interface{}{}), lit("[1]", []interface{}{1.0}), lit("[1,2]", []interface{}{1.0, 2.0}), lit(`["a"]`, []interface{}{"a"}),
 	lit("[[1]]", []interface{}{[]interface{}{1.0}}), lit("[0]", []interface{}{0.0}), lit(`[1,"a"]`, []interface{}{1.0, "a"}),
-	lit("[null]", []interface{}{nil}), lit("[1,null]", []interface{}{1.0, nil}),
+	lit("[null]", []interface{}{nil}), lit("[1,null]", []interface{}{1.0, nil}), lit(`["<&>"]`, []interface{}{"<&>"}),
 	// objects
 	lit("{}", map[string]interface{}{}), lit(`{"a":1}`, map[string]interface{}{"a": 1.0}), lit(`{"a":2}`, map[string]interface{}{"a": 2.0}),
 	lit(`{"b":[]}`, map[string]interface{}{"b": []interface{}{}}), lit(`{"a":null}`, map[string]interface{}{"a": nil}),
@@ -120,11 +121,24 @@ func init() {
 			}},
 			{Name: "range", Quick: []int{1}, Run: func(c *explore.Chooser, x *explore.Ctx, _ int) {
 				var l, r operand
-				if c.Bool() {
+				switch c.Choose(3) {
+				case 0:
 					// all integer pairs -3..3
 					a, b := c.Range(-3, 3), c.Range(-3, 3)
 					l, r = lit(numSrc(a), float64(a)), lit(numSrc(b), float64(b))
-				} else {
+				case 1:
+					// short ranges around the edge of the exactly representable integers
+					bases := []float64{9007199254740988, 9007199254740992, 1e16, -9007199254740996, 4294967294, 2147483646}
+					b := bases[c.Choose(len(bases))]
+					span := float64(c.Choose(6) * 2)
+					src := func(v float64) string {
+						if v < 0 {
+							return "(" + ref.NumString(v) + ")"
+						}
+						return ref.NumString(v)
+					}
+					l, r = lit(src(b), b), lit(src(b+span), b+span)
+				default:
 					l = c03Operands[c.Choose(nOp)]
 					r = c03Operands[c.Choose(nOp)]
 				}
@@ -180,6 +194,36 @@ func init() {
 					n = &ref.Cond{C: cond, T: boom("then evaluated"), E: &ref.Lit{Val: "E", Src: `"E"`}}
 				}
 				c03Check(x, n, doc)
+			}},
+			{Name: "computed-operands", Quick: []int{1}, ShardDepth: 2, Run: func(c *explore.Chooser, x *explore.Ctx, _ int) {
+				// equality is by value: a value computed by a function (held in whatever Go type the function
+				// returns) equals the same value written as a literal, bare and inside arrays and objects
+				twins := [][2]string{
+					{`$length("ab")`, `2`}, {`$count([1,2])`, `2`}, {`$keys({"a":1,"b":2})`, `["a","b"]`}, {`$split("a,b", ",")`, `["a","b"]`},
+					{`$map([1,2], function($v,$i){$i})`, `[0,1]`}, {`$string(1)`, `"1"`}, {`$number("2")`, `2`}, {`$not(false)`, `true`},
+					{`$append([1], [$count([1,2])])`, `[1,2]`}, {`$spread({"a":1})`, `[{"a":1}]`}, {`$merge([{"a":$length("z")}])`, `{"a":1}`},
+					{`$sort([2,1])`, `[1,2]`}, {`$reverse(["a","b"])`, `["b","a"]`}, {`$lookup({"k":[1]}, "k")`, `[1]`}, {`$sum([1,1])`, `2`},
+					{`$match("ab", /a/).index`, `0`}, {`$round(2.5)`, `2`}, {`$floor(2.5)`, `2`}, {`$zip([1],[2])`, `[[1,2]]`},
+				}
+				t := twins[c.Choose(len(twins))]
+				form := c.Choose(10)
+				c.Done()
+				C, L := t[0], t[1]
+				progs := []struct {
+					src  string
+					want bool
+				}{
+					{C + " = " + L, true}, {L + " = " + C, true}, {C + " != " + L, false}, {"[" + C + "] = [" + L + "]", true},
+					{`{"k": ` + C + `} = {"k": ` + L + `}`, true}, {"[" + C + "] in [[" + L + "]]", true}, {"[" + L + "] in [[" + C + "]]", true},
+					{"[[" + C + "]] != [[" + L + "]]", false}, {`[{"k": ` + C + `}] = [{"k": ` + L + `}]`, true}, {C + " = " + C, true},
+				}
+				p := progs[form]
+				if strings.HasPrefix(L, "[") && (form == 3 || form == 5 || form == 6 || form == 7) {
+					return // an array-valued function result is flattened by a surrounding array constructor, a literal is not
+				}
+				got := c16Expect(x, p.src, map[string]interface{}{}, p.want, false, true)
+				x.Outcome(got.Short())
+				x.Nontrivial()
 			}},
 			{Name: "nested-depth2", Quick: []int{1}, Thorough: []int{1, 2}, Run: func(c *explore.Chooser, x *explore.Ctx, size int) {
 				alpha := c03Small
